@@ -105,12 +105,18 @@ class PlainName:
             if len(result_lst) == 1:
                 result = result_lst[0]
             elif len(result_lst) > 1:
-                line, col = get_parser(obj).pos_to_linecol(obj_ref.position)
+                # The error is located at the reference. Its text belongs to
+                # the model being resolved, which is not the model of `obj`
+                # when another (e.g. imported) model is searched.
+                ref_parser = obj_ref.parser
+                if ref_parser is None:
+                    ref_parser = get_parser(obj)
+                line, col = ref_parser.pos_to_linecol(obj_ref.position)
                 raise TextXSemanticError(
                     f"name {obj_ref.obj_name} is not unique.",
                     line=line,
                     col=col,
-                    filename=get_model(obj)._tx_filename,
+                    filename=ref_parser.file_name,
                 )
             else:
                 result = None
